@@ -11,6 +11,9 @@ package zkmodule
 
 //@ pure func absorbedXA(t0 V, x V, a V) V = tapp(tapp(t0, statementLabel, list(x.Bytes())), commitmentLabel, list(a.Bytes()))
 
+// fsChallenge: the Fiat-Shamir challenge for (statement x, commitment a) from transcript state t0
+//@ pure func fsChallenge(t0 V, x V, a V, n int) []byte = textract(absorbedXA(t0, x, a), challengeLabel, n)
+
 //@ func Verify
 //@   property C08
 //@   let tr = ctx.Transcript()
